@@ -89,6 +89,9 @@ type OpSpec struct {
 	Word    string `json:"word"` // registered token name == source word; "" => built-in token type (refusal expected)
 	Builtin int    `json:"builtin,omitempty"`
 	Level   int    `json:"level,omitempty"`
+	// PrintLevel > 0: the node the operator builds reports this binding power to the printer (a plugin may want
+	// its node parenthesised more, or less, eagerly than its parse level suggests)
+	PrintLevel int `json:"print_level,omitempty"`
 }
 
 type IcptSpec struct {
@@ -185,6 +188,9 @@ func GenJob(seed uint64) *JobSpec {
 			if op.Role == 1 {
 				op.Level = 2 + ch.Choose(11) // ASSIGNMENT..MEMBER
 			}
+			if ch.Bool(1, 4) {
+				op.PrintLevel = 1 + ch.Choose(13)
+			}
 			j.Ops = append(j.Ops, op)
 			if ch.Bool(1, 8) {
 				j.Ops = append(j.Ops, op) // same-role duplicate: refusal
@@ -207,6 +213,13 @@ func GenJob(seed uint64) *JobSpec {
 		j.ViaInstall = ch.Bool(1, 3)
 	}
 	nIn := 1 + ch.Weighted(4, 3, 1)
+	curMode := 0
+	if j.Tolerant {
+		curMode |= 1
+	}
+	if j.Smart {
+		curMode |= 2
+	}
 	ncfg := len(xutil.AllConfigs())
 	for k := 0; k < nIn; k++ {
 		cfg := gen.Config{MaxTokens: 12 + ch.Choose(40), MaxStmts: 1 + ch.Choose(4), MaxDepth: 2 + ch.Choose(3), MaxNest: 1 + ch.Choose(3),
@@ -255,8 +268,10 @@ func GenJob(seed uint64) *JobSpec {
 		in.Debug = ch.Bool(2, 3)
 		in.LexAlone = ch.Bool(1, 3)
 		in.Mode = -1
-		if k > 0 && ch.Bool(1, 4) {
-			in.Mode = ch.Choose(4)
+		if k > 0 && ch.Bool(1, 3) {
+			// a real switch: at least one of the two modes changes
+			curMode ^= 1 + ch.Choose(3)
+			in.Mode = curMode
 		}
 		if ch.Bool(1, 3) {
 			for i, n := 0, 2+ch.Choose(3); i < n; i++ {
@@ -343,6 +358,9 @@ func customStmt(ch *kernel.Chooser, words []string) string {
 				}
 			}
 			if len(infix) > 0 && ch.Bool(2, 3) {
+				if ch.Bool(1, 4) {
+					sb.WriteString(" // note\n") // the operator token carries a leading comment
+				}
 				sb.WriteString(" " + infix[ch.Choose(len(infix))] + " ")
 			} else {
 				sb.WriteString(" " + plainOps[ch.Choose(len(plainOps))] + " ")
@@ -350,6 +368,9 @@ func customStmt(ch *kernel.Chooser, words []string) string {
 		}
 		for _, w := range words {
 			if roleOf(w) == 0 && ch.Bool(1, 4) {
+				if ch.Bool(1, 4) {
+					sb.WriteString("// pre\n")
+				}
 				sb.WriteString(w + " ")
 			}
 		}
@@ -376,13 +397,22 @@ type OpNode struct {
 
 func (n *OpNode) WriteTo(cw *ast.CodeWriter) {
 	n.env.Yield(sWritePre)
+	// plugins order the writer's helper calls as they please: a prefix node records its mapping and writes its
+	// comments before anything else (whitespace may still be pending then), the others do so at the operator
+	if n.Role == 0 {
+		cw.AddMapping(n.Tok.Start)
+		cw.WriteLeadingComments(n.Tok.LeadingComments)
+	}
 	cw.WriteRune('(')
 	cw.WriteRune('«') // plugin nodes write whatever runes they like
 	if n.L != nil {
 		n.L.WriteTo(cw)
 		cw.WriteSpace()
 	}
-	cw.AddMapping(n.Tok.Start)
+	if n.Role != 0 {
+		cw.WriteLeadingComments(n.Tok.LeadingComments)
+		cw.AddMapping(n.Tok.Start)
+	}
 	cw.WriteString(n.Tok.Literal)
 	if n.R != nil {
 		cw.WriteSpace()
@@ -392,6 +422,13 @@ func (n *OpNode) WriteTo(cw *ast.CodeWriter) {
 	n.env.Yield(sWritePost)
 }
 func (n *OpNode) Precedence() int { return n.Level }
+
+func pick(override, def int) int {
+	if override > 0 {
+		return override
+	}
+	return def
+}
 
 // ProbeStmt / ProbeExpr are transparent wrappers: they delegate printing and
 // binding power, and give the scheduler a yield point inside Compile.
@@ -520,9 +557,11 @@ type jobRun struct {
 	// curLimit: pull limit for lexers created by the Build in progress
 	curLimit int
 	twin     bool
-	curTlog  *tlog // token log of the lexer created by the Build in progress
-	lexOf    map[*parser.Parser]*tlog
-	b        builders
+	// modeOverride >= 0 (twin builders): the modes the builder is given once, at creation
+	modeOverride int
+	curTlog      *tlog // token log of the lexer created by the Build in progress
+	lexOf        map[*parser.Parser]*tlog
+	b            builders
 }
 
 func (j *jobRun) plogOf(p *parser.Parser) *plog {
@@ -567,7 +606,7 @@ func (j *jobRun) register(s *sink, key string, op OpSpec) {
 				env.Yield(sOpPre)
 				r := right()
 				env.Yield(sOpPost)
-				return &OpNode{Role: 0, Tok: tok, R: r, Level: parser.UNARY, env: env}
+				return &OpNode{Role: 0, Tok: tok, R: r, Level: pick(op.PrintLevel, parser.UNARY), env: env}
 			})
 		case 1:
 			lvl := op.Level
@@ -575,12 +614,12 @@ func (j *jobRun) register(s *sink, key string, op OpSpec) {
 				env.Yield(sOpPre)
 				r := right()
 				env.Yield(sOpPost)
-				return &OpNode{Role: 1, Tok: tok, L: left, R: r, Level: lvl, env: env}
+				return &OpNode{Role: 1, Tok: tok, L: left, R: r, Level: pick(op.PrintLevel, lvl), env: env}
 			})
 		default:
 			err = j.pb().RegisterPostfixOperator(tt, func(tok token.Token, left ast.Expression) ast.Expression {
 				env.Yield(sOpPre)
-				return &OpNode{Role: 2, Tok: tok, L: left, Level: parser.POSTFIX, env: env}
+				return &OpNode{Role: 2, Tok: tok, L: left, Level: pick(op.PrintLevel, parser.POSTFIX), env: env}
 			})
 		}
 	})
@@ -606,7 +645,7 @@ func (j *jobRun) pb() *parser.Builder { return j.b.pb }
 
 // Run executes the job in env and returns its canonical result.
 func RunJob(spec *JobSpec, env Env, full bool) *JobResult {
-	j := &jobRun{spec: spec, env: env, full: full, cfgs: xutil.AllConfigs(), types: map[string]token.Type{},
+	j := &jobRun{spec: spec, env: env, full: full, cfgs: xutil.AllConfigs(), types: map[string]token.Type{}, modeOverride: -1,
 		plogs: map[*parser.Parser]*plog{}, tlogs: map[*lexer.Lexer]*tlog{}, lexOf: map[*parser.Parser]*tlog{}}
 	main := &sink{full: full}
 	j.setup(main)
@@ -697,7 +736,7 @@ func RunJob(spec *JobSpec, env Env, full bool) *JobResult {
 		got := second(j.b.lb, j)
 		main.put("z-second-parser-builder/parse", got)
 		// the same on fresh builders configured the same way, none of which has built anything yet
-		t := &jobRun{spec: spec, env: env, cfgs: j.cfgs, twin: true, types: map[string]token.Type{},
+		t := &jobRun{spec: spec, env: env, cfgs: j.cfgs, twin: true, types: map[string]token.Type{}, modeOverride: -1,
 			plogs: map[*parser.Parser]*plog{}, tlogs: map[*lexer.Lexer]*tlog{}, lexOf: map[*parser.Parser]*tlog{}}
 		t.setup(&sink{})
 		for i := range spec.Inputs {
@@ -799,7 +838,11 @@ func RunJob(spec *JobSpec, env Env, full bool) *JobResult {
 func (j *jobRun) setup(s *sink) {
 	spec, env := j.spec, j.env
 	lb := lexer.NewBuilder()
-	pb := parser.NewBuilder(lb).WithTolerantMode(spec.Tolerant).WithSmartSemicolon(spec.Smart)
+	tol, smart := spec.Tolerant, spec.Smart
+	if j.modeOverride >= 0 {
+		tol, smart = j.modeOverride&1 != 0, j.modeOverride&2 != 0
+	}
+	pb := parser.NewBuilder(lb).WithTolerantMode(tol).WithSmartSemicolon(smart)
 	j.b = builders{lb, pb}
 	// guard against loops that keep pulling end of input: deterministic, same in every environment
 	lb.UseTokenInterceptor(func(l *lexer.Lexer, next func() token.Token) token.Token {
@@ -1122,17 +1165,21 @@ func clipAroundJ(a, b string) string {
 // twinParse: a fresh pair of builders receives the registration history the job's builders had
 // when input k was built; its first parser parses input k.
 func (j *jobRun) twinParse(k int) (parseText, obs string) {
-	t := &jobRun{spec: j.spec, env: j.env, cfgs: j.cfgs, twin: true, types: map[string]token.Type{},
+	t := &jobRun{spec: j.spec, env: j.env, cfgs: j.cfgs, twin: true, types: map[string]token.Type{}, modeOverride: -1,
 		plogs: map[*parser.Parser]*plog{}, tlogs: map[*lexer.Lexer]*tlog{}, lexOf: map[*parser.Parser]*tlog{}}
+	// the fresh builder is given the modes in force at Build k directly, at creation, not the history of
+	// switches: a switch that does not take effect (or sticks) on the reused builder then shows as a difference
+	for i := 1; i <= k; i++ {
+		if m := j.spec.Inputs[i].Mode; m >= 0 {
+			t.modeOverride = m
+		}
+	}
 	scratch := &sink{}
 	t.setup(scratch)
 	for i := 1; i <= k; i++ {
 		if in := &j.spec.Inputs[i]; in.LateName != "" {
 			guard(func() { t.types[in.LateName] = t.b.lb.RegisterTokenType(in.LateName) })
 			t.register(scratch, "late", *in.LateOp)
-		}
-		if m := j.spec.Inputs[i].Mode; m >= 0 {
-			t.b.pb.WithTolerantMode(m&1 != 0).WithSmartSemicolon(m&2 != 0)
 		}
 	}
 	text := j.spec.Inputs[k].Text
